@@ -196,10 +196,13 @@ Proof.
   unfold same_mig in E. apply andb_true_iff in E. destruct E as [E _]. apply rangelist_eqb_eq in E. rewrite E in Hs. unfold rangelist in *. lia.
 Qed.
 
+Lemma chunk_out_le_owned s c : (cnt s (chunk_out c) <= cnt s (chunk_owned c))%nat.
+Proof. unfold chunk_out, chunk_owned. rewrite !cnt_app. lia. Qed.
+
 Lemma all_out_le_owned s chunks : (cnt s (all_out chunks) <= cnt s (owned chunks))%nat.
 Proof.
   unfold all_out, owned. induction chunks as [|c l IH]; cbn [flat_map]; [lia|].
-  rewrite !cnt_app. unfold chunk_out, chunk_owned. rewrite !cnt_app. lia.
+  rewrite !cnt_app. pose proof (chunk_out_le_owned s c). lia.
 Qed.
 
 Lemma covers_once_le1 l s : covers_once l -> (cnt s l <= 1)%nat.
